@@ -15,6 +15,7 @@
 //   resf vt s w h dw dh a..f (bits)  the same with an arbitrary matrix3x2<double> given as six bit patterns (sample points off the grid)
 //   resg vt s w h dw dh a..f (bits)  the same with a matrix3x2<float> given as six binary32 bit patterns (sample points are point<float>)
 //   rsz  vt s w h dw dh             resize_view(src, dst): all dst channel values
+//   rsub vt s w h dw dh x1 y1 x2 y2 ang (5 bit patterns)   resample_subimage(src, dst, x1, y1, x2, y2, ang): all dst channel values
 //   mmul a.. (12 doubles as bits)   matrix product: 6 bit patterns
 //   minv a.. (6 bits)               inverse: 6 bit patterns
 //   mtr  a.. (6 bits) x y (bits)    transform(m, point<double>): 2 bit patterns
@@ -214,6 +215,16 @@ std::string rsz(ptrdiff_t w, ptrdiff_t h, ptrdiff_t dw, ptrdiff_t dh) {
     return dump(gil::const_view(d));
 }
 
+template <typename Src, typename Sampler>
+std::string rsub(ptrdiff_t w, ptrdiff_t h, ptrdiff_t dw, ptrdiff_t dh, double x1, double y1, double x2, double y2, double ang) {
+    Src s(w, h);
+    using pixel_t = typename Src::pixel_t;
+    gil::image<pixel_t, false> d(dw, dh);
+    gil::fill_pixels(gil::view(d), sentinel<pixel_t>());
+    gil::resample_subimage(s.v, gil::view(d), x1, y1, x2, y2, ang, Sampler{});
+    return dump(gil::const_view(d));
+}
+
 static double d_of(std::string const& s) { uint64_t u = hv::to_ull(s); double d; std::memcpy(&d, &u, 8); return d; }
 static std::string b_of(double d) { uint64_t u; std::memcpy(&u, &d, 8); return std::to_string(u); }
 static std::string show_m(gil::matrix3x2<double> const& m) {
@@ -325,6 +336,12 @@ static std::string handle_op(std::string const& line) {
         if (w.size() == 7 && w[0] == "rsz") {
 #define X(name, S) if (w[1] == name) { if (w[2] == "b") return rsz<S, gil::bilinear_sampler>(I(3), I(4), I(5), I(6)); \
                                        return rsz<S, gil::nearest_neighbor_sampler>(I(3), I(4), I(5), I(6)); }
+            SRCS(X)
+#undef X
+        }
+        if (w.size() == 12 && w[0] == "rsub") {
+#define X(name, S) if (w[1] == name) { if (w[2] == "b") return rsub<S, gil::bilinear_sampler>(I(3), I(4), I(5), I(6), d_of(w[7]), d_of(w[8]), d_of(w[9]), d_of(w[10]), d_of(w[11])); \
+                                       return rsub<S, gil::nearest_neighbor_sampler>(I(3), I(4), I(5), I(6), d_of(w[7]), d_of(w[8]), d_of(w[9]), d_of(w[10]), d_of(w[11])); }
             SRCS(X)
 #undef X
         }
